@@ -113,6 +113,75 @@ int main(int argc, char **argv)
 """
 
 
+MAIN_CXX = r"""
+#include <fstream>
+#include <iostream>
+#define MAXB 64
+static yy_buffer_state *h[MAXB];
+static int stack[256]; static int sp = 0;
+static int g_autopop; static int g_incmode; static int inc[MAXB]; static int ninc = 0;
+static std::ifstream *fs[MAXB];
+/* the class of the scanner: yywrap() is a virtual member (the user supplies the base version), overridden here */
+int yyFlexLexer::yywrap() { return 1; }
+struct BL : public yyFlexLexer {
+    BL(std::istream *i) : yyFlexLexer(i, 0) {}
+    void flush(yy_buffer_state *b) { yy_flush_buffer(b); }     /* (protected in the class) */
+    virtual int yywrap() {
+        if (g_incmode && ninc > 1) {
+            int top = inc[ninc - 1];
+            yy_delete_buffer(h[top]); h[top] = 0; ninc--;
+            yy_switch_to_buffer(h[inc[ninc - 1]]);
+            g_cur = inc[ninc - 1]; if (sp == 0) sp = 1; stack[sp - 1] = g_cur;
+            return 0;
+        }
+        if (g_autopop && sp > 1 && stack[sp - 1] >= 0 && stack[sp - 2] >= 0) {
+            h[stack[sp - 1]] = 0; sp--;
+            yypop_buffer_state();
+            g_cur = stack[sp - 1];
+            return 0;
+        }
+        return 1;
+    }
+};
+int main(int argc, char **argv)
+{
+    FILE *ops = fopen(argv[1], "r");
+    char op[8], path[512]; int id, k, i, v;
+    std::ifstream devnull("/dev/null");
+    BL *l = new BL(&devnull);
+    memset(h, 0, sizeof h); memset(fs, 0, sizeof fs);
+    if (!ops) return 2;
+    while (fscanf(ops, "%7s", op) == 1) {
+        if (op[0] == 'C') { int size; fscanf(ops, "%d %511s %d", &id, path, &size); fs[id] = new std::ifstream(path, std::ios::binary); if (!*fs[id]) return 2;
+            /* a stream pointer and a stream reference, in turn */
+            if (id % 2) h[id] = l->yy_create_buffer(fs[id], size); else h[id] = l->yy_create_buffer(*fs[id], size); }
+        else if (op[0] == 'W') { fscanf(ops, "%d", &id); l->yy_switch_to_buffer(h[id]); if (sp == 0) sp = 1; stack[sp - 1] = id; }
+        else if (op[0] == 'I') { fscanf(ops, "%d", &id); inc[ninc++] = id; l->yy_switch_to_buffer(h[id]); if (sp == 0) sp = 1; stack[sp - 1] = id; }
+        else if (op[0] == 'P') { fscanf(ops, "%d", &id); l->yypush_buffer_state(h[id]); if (sp > 0 && stack[sp - 1] < 0) stack[sp - 1] = id; else stack[sp++] = id; }
+        else if (op[0] == 'O') { if (sp > 0) { int top = stack[sp - 1]; if (top >= 0) h[top] = 0; sp--; } l->yypop_buffer_state(); }
+        else if (op[0] == 'F') { fscanf(ops, "%d", &id); l->flush(h[id]); }
+        else if (op[0] == 'D') { fscanf(ops, "%d", &id); l->yy_delete_buffer(h[id]); h[id] = 0; if (sp > 0 && stack[sp - 1] == id) stack[sp - 1] = -1; }
+        else if (op[0] == 'X') {
+            for (i = 0; i < MAXB; i++) { int j, onstack = 0; for (j = 0; j < sp; j++) if (stack[j] == i) onstack = 1;
+                if (h[i] && !onstack) { l->yy_delete_buffer(h[i]); } h[i] = 0; }
+            sp = 0; ninc = 0; delete l; l = new BL(&devnull);
+            for (i = 0; i < MAXB; i++) { if (fs[i]) delete fs[i]; fs[i] = 0; }
+            printf("X\n"); }
+        else if (op[0] == 'L' || op[0] == 'K' || op[0] == 'M') { fscanf(ops, "%d", &k); g_autopop = (op[0] == 'K'); g_incmode = (op[0] == 'M');
+            for (i = 0; i < k; i++) { g_cur = sp > 0 ? stack[sp - 1] : -1; v = l->yylex(); if (v == 0) { printf("Z %d\n", g_cur); break; } } }
+    }
+    for (i = 0; i < MAXB; i++) { int j, onstack = 0; for (j = 0; j < sp; j++) if (stack[j] == i) onstack = 1;
+        if (h[i] && !onstack) { l->yy_delete_buffer(h[i]); h[i] = 0; } }
+    delete l;
+    for (i = 0; i < MAXB; i++) if (fs[i]) delete fs[i];
+    fclose(ops);
+    printf("END\n");
+    fflush(stdout);
+    return 0;
+}
+"""
+
+
 def make_spec(prog, rng, backend, lineno, alloc="", extra_options=None, fini_extra=""):
     defs = {}
     nrules = len(prog['rules'])
@@ -129,6 +198,9 @@ def make_spec(prog, rng, backend, lineno, alloc="", extra_options=None, fini_ext
         S, S1, decl = ", s", "s", "yyscan_t s;"
         init = "if (yylex_init(&s)) return 3; yyset_in(fopen(\"/dev/null\", \"rb\"), s);"
         fini = "yylex_destroy(s);"
+        text, leng, ln, bol = "yytext", "(int) yyleng", ("yylineno" if lineno else "0"), "(int) yyatbol()"
+    elif backend == 'cxx':
+        S, S1, decl, init, fini = "", "", "", "", ""
         text, leng, ln, bol = "yytext", "(int) yyleng", ("yylineno" if lineno else "0"), "(int) yyatbol()"
     else:    # c99
         S, S1, decl = ", s", "s", "yyscan_t s;"
@@ -159,6 +231,9 @@ def make_spec(prog, rng, backend, lineno, alloc="", extra_options=None, fini_ext
     if backend == 'c99':
         out.append("<*>.|\\n\t{ %s; return 1; }" % (tokm % (nrules + 1)))
     out.append("%%")
+    if backend == 'cxx':
+        out.append(EV + MAIN_CXX)
+        return "\n".join(out) + "\n"
     flushcur = {'nr': "YY_FLUSH_BUFFER;", 'r': "yy_flush_buffer(h[id], s);", 'c99': "yy_flush_current_buffer(s);"}[backend]
     out.append(EV + MAIN % {'S': S, 'S1': S1, 'decl': decl, 'init': init, 'fini': fini + fini_extra, 'FLUSHCUR': flushcur,
                             'BT': 'yybuffer' if backend == 'c99' else 'YY_BUFFER_STATE', 'WARG': 'void' if backend == 'nr' else 'yyscan_t s',
@@ -167,8 +242,9 @@ def make_spec(prog, rng, backend, lineno, alloc="", extra_options=None, fini_ext
     return "\n".join(out) + "\n"
 
 
-def gen_history(rng, prog, length, deep=False):
-    """A permitted history: (ops for the C driver, ops for the model, file contents)."""
+def gen_history(rng, prog, length, deep=False, files_only=False):
+    """A permitted history: (ops for the C driver, ops for the model, file contents).  files_only: every buffer is created from
+    a file (the C++ class has no yy_scan_* functions)."""
     import rulesets
     files = []
     live = {}          # id -> kind
@@ -192,7 +268,7 @@ def gen_history(rng, prog, length, deep=False):
         cur = current()
         choices = []
         if len(live) < 20:
-            choices += ['C'] * 3 + ['S', 'B', 'U']
+            choices += ['C'] * 3 + ([] if files_only else ['S', 'B', 'U'])
         free_ids = [i for i in live if not in_stack(i)]
         if free_ids:
             choices += ['W'] * 3 + ['P'] * (6 if deep else 3) + ['Dfree']
@@ -378,27 +454,28 @@ def eval_buf_case(flex, workdir, case, cc_extra=None, env=None, alloc="", fini_e
     os.makedirs(workdir, exist_ok=True)
     prog = case['prog']
     backend = case['backend']
-    lineno = case['lineno'] and backend != 'nr'
+    lineno = case['lineno'] and backend not in ('nr', 'cxx')      # (one yylineno for all buffers there)
     bol_obs = any(r.get('bol') for r in prog['rules'])
     mprog = prog
     if backend == 'c99':
         mprog = dict(prog)
         mprog['rules'] = list(prog['rules']) + [{'head': ('alt', ('any',), ('c', 10)), 'bol': False, 'scs': '*', 'trail': None}]
-    text = make_spec(prog, Rng(case['seed']).fork("print"), backend, case['lineno'] and backend != 'nr', alloc=alloc,
+    text = make_spec(prog, Rng(case['seed']).fork("print"), backend, lineno, alloc=alloc,
                      extra_options=case.get('extra_options'), fini_extra=fini_extra)
     res['text'] = text
     with open(os.path.join(workdir, "s.l"), "w") as f:
         f.write(text)
-    rc, out, err = scanner.run_flex(flex, "s.l", "s.c", case['flex_opts'], workdir)
+    cfile = "s." + backends.BACKENDS[backend]['ext']
+    rc, out, err = scanner.run_flex(flex, "s.l", cfile, case['flex_opts'], workdir)
     if rc != 0:
         res['problems'].append(('flex-error', err.decode(errors="replace")[:300]))
         return res
-    rc, out, err = scanner.compile_c("s.c", "s.exe", workdir, extra=(cc_extra or []) + ["-I" + os.path.dirname(flex)], backend=backend)
+    rc, out, err = scanner.compile_c(cfile, "s.exe", workdir, extra=(cc_extra or []) + ["-I" + os.path.dirname(flex)], backend=backend)
     if rc != 0:
         res['problems'].append(('compile-error', err.decode(errors="replace")[:600]))
         return res
     try:
-        with open(os.path.join(workdir, "s.c"), errors="replace") as f:
+        with open(os.path.join(workdir, cfile), errors="replace") as f:
             res['lastdfa'] = tables.parse_scanner(f.read()).get('lastdfa')
     except Exception:
         pass
